@@ -442,7 +442,11 @@ def run_property(pid, tier="quick", seed=0, update_ledger=False, verbose=False):
     if level == "proof" and not (all_unbounded and not p.get("not_decided")):
         level = "other" if not all_unbounded else level
     trusted = ["z3 5.1 (python API); cvc5 1.0.3 and z3 4.8.12 CLIs as fallbacks", "pyvc VC generator (this repository: /verif/pyvc)",
-               "Python semantics as encoded (DESIGN.md 2.3): int = mathematical integers, float = mathematical reals"]
+               "Python semantics as encoded (DESIGN.md 2.3): int = mathematical integers, float = mathematical reals (no rounding, no overflow, no NaN)",
+               "heap model (DESIGN.md 2.4): tree-shaped - objects reachable from different parameters (or different cells of one container) are distinct unless a contract says `shares`; results of contract/external calls are fresh objects",
+               "termination is not verified; exceptions other than those raised explicitly or declared by callee contracts (MemoryError, RecursionError, KeyboardInterrupt) are not modelled",
+               "finite sums: uninterpreted bigsum(lambda) with congruence and all-zero rules (lean/BigSum.lean, checked by Lean 4 + Mathlib); collections are finite",
+               "foreach summaries: loop bodies are executed once for a symbolic element; order independence is an obligation (foreach-side#k/*), iteration order of sets/dicts is otherwise unspecified"]
     assumptions = list(p.get("assumptions", [])) + [f"assumed/external contract: {a}" for a in sorted(assumed)]
     explanation = (f"{n_dis}/{n_obl} obligations discharged by a deductive VC check (unbounded, all inputs) over "
                    f"{len([f for f in funcs if f['kind']=='function'])} functions re-parsed from {os.environ.get('VERIF_REPO','/repo')}; "
